@@ -413,6 +413,15 @@ def programs_enum_fields(tier):
         F("gap", T_enum(e2n), (24, 2), array=(2, 4)),                        # stride > width: gap bits 26,27 hold `keep`
         F("keep", T_u(2), (26, 2)),
     ])], props=("C08", "C03", "C04", "C16", "C12")))
+    progs.append(Program("ef16d", enums=[e2n, e3n], structs=[S("ef16d", 32, [
+        F("mode", T_enum(e2n), [(4, 1), (0, 1)], array=(2, 8)),              # DESCENDING list in an enum array: bits 4,0 / 12,8
+        F("prio", T_enum(e3n), [(21, 2), (19, 1)], array=(2, 4), access="rw"),   # 21..=22,19 / 25..=26,23
+    ])], props=("C08", "C03", "C04", "C16")))
+    e8p = mk_enum("Ef8p", 8, "false", values=[0x99, 0x66, 0xF0, 1])
+    in8p = Struct("In8p", 8, [F("lo", T_u(4), (0, 4)), F("hi", T_u(4), (4, 4))])
+    progs.append(Program("effullnc", enums=[e8p], structs=[in8p, S("effullnc", 8, [
+        F("op", T_enum(e8p), [(0, 2), (4, 4), (2, 2)]),                      # FULL-width custom-typed permutation starting at bit 0
+    ]), S("effullnc2", 8, [F("hdr", FT("nested", 8, in8p), [(0, 4), (6, 2), (4, 2)])], name="Seffullnc2")], props=("C08", "C04", "C16")))
     e8f = mk_enum("Ef8f", 8, "false", values=[0, 0xFF, 0x80, 0x7F])
     in16 = Struct("In16", 16, [F("lo", T_u(8), (0, 8)), F("hi", T_u(8), (8, 8))])
     progs.append(Program("effull8", enums=[e8f], structs=[S("effull8", 8, [F("op", T_enum(e8f), (0, 8))])], props=("C08", "C16", "C13")))
